@@ -28,6 +28,10 @@ TIERS = dict(quick=dict(cases=30000, wall=30.0), thorough=dict(cases=4000000, wa
 SIM_TIME_UNIT = "simulated true seconds"
 
 
+class _Stuck(BaseException):
+    pass
+
+
 def run_case(tape, tier):
     res = Result()
     tock_c = tape.pick("tock_c", [0.25, 0.1, 1.0, 0.03125])
@@ -66,7 +70,7 @@ def run_case(tape, tier):
         over_by_cycle[cur[0]] = quantum   # only the last sleep of a wait can overshoot the deadline
         if i >= len(sleeps):
             if i > 5000:
-                raise HarnessError("sleep cap")
+                raise _Stuck()
             return quantum
         s = sleeps[i]
         extra = s["over"] + quantum
@@ -106,21 +110,31 @@ def run_case(tape, tier):
             ends.append(clock.true)
             return k + 1 >= n
 
+    problem = None
     with sched.clock_installed(clock):
-        doist = doing.Doist(tock=tock_c, real=True, doers=[Pacer()])
-        clock.true += gap
-        if j0:
-            clock.offset -= j0
-            res.faults["backward_step_before_run"] += 1
-        if change:
-            doist.tock = tock_run
-            res.faults["tock_changed_before_run"] += 1
-        j_before = J[0]
-        t_do = clock.true
-        doist.do()
+        try:
+            doist = doing.Doist(tock=tock_c, real=True, doers=[Pacer()])
+            clock.true += gap
+            if j0:
+                clock.offset -= j0
+                res.faults["backward_step_before_run"] += 1
+            if change:
+                doist.tock = tock_run
+                res.faults["tock_changed_before_run"] += 1
+            j_before = J[0]
+            t_do = clock.true
+            doist.do()
+        except _Stuck:
+            problem = ("pacing-wait-never-ends", "more than 5000 sleeps in a run of %d cycles: the wait for the next cycle does not end "
+                       "(cycle %d, true time %.6f)" % (n, len(starts), clock.true))
+        except Exception as ex:
+            problem = ("pacing-raised", "the real-time run raised %s: %s" % (type(ex).__name__, str(ex)[:150]))
     res.scenario = lambda: dict(script=dict(script, sleeps=sleeps[:clock.sleeps]), starts=starts)
     res.scen_digest = digest(dict(script, sleeps=sleeps[:clock.sleeps]))
     res.event_digest = digest([repr(x) for x in starts + ends])
+    if problem:
+        res.violate(*problem)
+        return res
     if len(starts) != n:
         res.violate("pacing-cycle-count", "ran %d cycles, expected %d" % (len(starts), n))
         return res
